@@ -54,6 +54,14 @@ MUTATORS_ELEM = {'append', 'add', 'insert'}
 MUTATORS_SEQ = {'extend', 'update', 'collect'}
 
 
+class _Rec(dict):
+    """Result of Flow.record(); `nested` holds the entries stored as
+    d[k1][k2] = v: {k1: [(k2, value expr, fn, bind)]}."""
+    def __init__(self):
+        dict.__init__(self)
+        self.nested = {}
+
+
 class Flow:
     def __init__(self, repo, max_depth=3):
         self.repo = repo
@@ -280,6 +288,8 @@ class Flow:
             out = A(e.elt)
             if any(g.ifs for g in e.generators):
                 out.add('if()')     # some elements are filtered out
+            if isinstance(e, (ast.ListComp, ast.SetComp)):
+                out.add(self._alloc(e, fn))   # a fresh container
             return out
         if isinstance(e, ast.DictComp):
             out = A(e.value) | A(e.key)
@@ -1255,7 +1265,7 @@ class Flow:
         if key in _seen or depth > self.max_depth:
             return None
         _seen = _seen | {key}
-        out = {}
+        out = _Rec()
 
         def put(k, v, f, b):
             out.setdefault(k, []).append((v, f, b))
@@ -1264,6 +1274,8 @@ class Flow:
             if r:
                 for k, vs in r.items():
                     out.setdefault(k, []).extend(vs)
+                for k, vs in getattr(r, 'nested', {}).items():
+                    out.nested.setdefault(k, []).extend(vs)
 
         if isinstance(e, ast.Dict):
             for k, v in zip(e.keys, e.values):
@@ -1352,6 +1364,23 @@ class Flow:
                                     if rr is not None:
                                         found = True
                                         merge(rr)
+                if found:
+                    # d[k1][k2] = v: an entry of the nested record
+                    for n in walk_no_nested(sc.node):
+                        if not isinstance(n, ast.Assign):
+                            continue
+                        for t in n.targets:
+                            if isinstance(t, ast.Subscript) and isinstance(
+                                    t.value, ast.Subscript) and isinstance(
+                                    t.value.value, ast.Name) and \
+                                    t.value.value.id == e.id:
+                                k1 = self.const_keys(t.value.slice, sc, b)
+                                k2 = self.const_keys(t.slice, sc, b)
+                                for kk in (k1 or []):
+                                    for k in (k2 if k2 is not None
+                                              else ['*']):
+                                        out.nested.setdefault(kk, []) \
+                                            .append((k, n.value, sc, b))
                 return out if found else None
             return out if out else None
         return None
@@ -1371,6 +1400,9 @@ class Flow:
                 ok = True
                 for k, vs in r.items():
                     out.setdefault(k, []).extend(vs)
+        if ok:
+            for k, v, f, b in getattr(rec, 'nested', {}).get(key, []):
+                out.setdefault(k, []).append((v, f, b))
         return out if ok else None
 
     def sequence(self, e, fn, bind=None, depth=0):
@@ -1398,7 +1430,8 @@ class Flow:
                         return self.sequence(ds[0][1], sc,
                                              bind if sc is fn else None,
                                              depth + 1)
-                    return None
+                    return self._built_sequence(
+                        e.id, sc, bind if sc is fn else None, depth)
         if isinstance(e, ast.Call):
             callee = self.resolve_call(e, fn) if fn is not None else None
             if callee is not None:
@@ -1409,6 +1442,53 @@ class Flow:
                         len({len(q) for q in seqs}) == 1:
                     return seqs[0]
         return None
+
+    def _built_sequence(self, name, sc, bind, depth):
+        """A list built by straight-line statements of the function body:
+        `x = [..]`, then `x += [..]` / `x.extend([..])` / `x.append(v)`,
+        none of them under a condition or in a loop."""
+        out = None
+        for st in sc.node.body:
+            touched = any(isinstance(n, ast.Name) and n.id == name and (
+                isinstance(n.ctx, ast.Store) or isinstance(
+                    getattr(n, '_parent', None), ast.Attribute))
+                for n in ast.walk(st))
+            if not touched:
+                continue
+            if isinstance(st, ast.Assign) and len(st.targets) == 1 and \
+                    isinstance(st.targets[0], ast.Name) and \
+                    st.targets[0].id == name:
+                out = self.sequence(st.value, sc, bind, depth + 1)
+                if out is None:
+                    return None
+            elif isinstance(st, ast.AugAssign) and isinstance(
+                    st.op, ast.Add) and isinstance(
+                        st.target, ast.Name) and st.target.id == name:
+                r = self.sequence(st.value, sc, bind, depth + 1)
+                if out is None or r is None:
+                    return None
+                out = out + r
+            elif isinstance(st, ast.Expr) and isinstance(
+                    st.value, ast.Call) and isinstance(
+                        st.value.func, ast.Attribute) and isinstance(
+                    st.value.func.value, ast.Name) and \
+                    st.value.func.value.id == name and len(
+                        st.value.args) == 1 and out is not None:
+                m = st.value.func.attr
+                if m == 'append':
+                    out = out + [(st.value.args[0], sc, bind)]
+                elif m == 'extend':
+                    r = self.sequence(st.value.args[0], sc, bind, depth + 1)
+                    if r is None:
+                        return None
+                    out = out + r
+                else:
+                    return None
+            elif isinstance(st, ast.Return):
+                continue
+            else:
+                return None
+        return out
 
     # -- calls ---------------------------------------------------------------
     def dynamic_methods(self, call, fn, bind=None):
